@@ -1,6 +1,7 @@
 /- Drv/Cfg.lean — `fvdriver cfg`: `(body stmt…)` → `<implAllPathsReturn> <canFallOff> <wf>` -/
 import FerretVerif.Model.Cfg
 import FerretVerif.Core.SExp
+import FerretVerif.Drv.Util
 
 namespace FerretVerif.Drv
 open FerretVerif.Cfg FerretVerif.Core
@@ -29,5 +30,14 @@ def cmdCfg (l : String) : String :=
     | some b => s!"{implAllPathsReturn b} {canFallOff b} {wfL false b} {analysed .func} {analysed .method} {analysed .funcLit}"
     | none => "bad-ast"
   | _ => "bad-sexp"
+
+/-- `fvdriver cfg-covers`: `<n> <i,j,…|->` → matchCoversEnum of the enum V0…V(n-1) against arms Vi, Vj, … -/
+def cmdCfgCovers (l : String) : String :=
+  match fields l with
+  | [n, arms] =>
+    match n.toNat?, (if arms == "-" then some [] else (arms.splitOn ",").mapM String.toNat?) with
+    | some n, some as => toString (matchCoversEnum ((List.range n).map fun i => s!"V{i}") (as.map fun i => s!"V{i}"))
+    | _, _ => "bad-op"
+  | _ => "bad-op"
 
 end FerretVerif.Drv
